@@ -264,7 +264,10 @@ func TestVerif_C10(t *testing.T) {
 		if r.chance(10) {
 			hb.WriteString("X-Huge: " + strings.Repeat("x", 5000) + "\r\n")
 		}
-		if r.chance(8) {
+		// every 13th case (chosen without drawing, so that changes of the generator cannot lose the shape):
+		// a header beyond 1 MiB whose second attempt reads it back from the spool
+		forceBulk := i%13 == 5
+		if bulk := r.chance(8); bulk || forceBulk {
 			// header beyond 1 MiB (endpoints can be configured with a larger max_header_size)
 			for j := 0; j < 1300; j++ {
 				hb.WriteString("X-Bulk: " + strings.Repeat("y", 900) + "\r\n")
@@ -354,6 +357,10 @@ func TestVerif_C10(t *testing.T) {
 			}
 		}
 		restart := r.chance(50)
+		if forceBulk {
+			tgt.failBody = true
+			stats["header_over_1MiB_read_back"]++
+		}
 
 		ctx := context.Background()
 		d, err := q.Start(ctx, meta, from)
